@@ -2048,8 +2048,14 @@ redirect_lan_packet_to_control_plane(struct __sk_buff *skb, __u32 link_h_len,
 	handoff.result.outbound = routing_meta.data.outbound;
 	handoff.result.dscp = routing_meta.data.dscp;
 	__builtin_memcpy(handoff.result.mac, pkt->ethh.h_source, 6);
-	bpf_map_update_elem(&routing_handoff_map, &pkt->tuples.five,
-			    &handoff, BPF_ANY);
+	if (bpf_map_update_elem(&routing_handoff_map, &pkt->tuples.five,
+				&handoff, BPF_ANY) &&
+	    is_short_lived_udp_traffic(&pkt->tuples.five))
+		/* Same rule as the WAN path: a stateless DNS datagram has no
+		 * conn_state record, so without this entry the control plane
+		 * would find nothing (or an earlier datagram's stale decision).
+		 */
+		return TC_ACT_SHOT;
 	return redirect_to_control_plane_ingress();
 }
 
